@@ -372,6 +372,18 @@ static GBase** live_sg(long k)
 }
 static thread_local Table<sigc::connection*>* g_cn;
 static thread_local Table<sigc::scoped_connection*>* g_kn;
+// connection objects held through shared ownership (cshare / crel): the one-shot idiom, a handler holding a
+// shared_ptr to its own sigc::connection
+struct SharedConn { std::shared_ptr<sigc::connection> sp; std::weak_ptr<sigc::connection> wp; bool released = false; };
+static thread_local std::map<long, SharedConn>* g_cnsh;
+static sigc::connection** live_cn(long k)
+{
+  sigc::connection** c = g_cn->get(k);
+  if (!c) return nullptr;
+  auto f = g_cnsh->find(k);
+  if (f != g_cnsh->end() && f->second.wp.expired()) { g_cn->drop(k); return nullptr; }
+  return c;
+}
 
 static TrVar* live_tr(long k)
 {
@@ -392,6 +404,12 @@ static void collect_owned(long body, std::vector<std::shared_ptr<void>>& out)
   if (f == g_prog->owns.end()) return;
   for (long t : f->second)
   {
+    if (t >= 4000)
+    {
+      auto e = g_cnsh->find(t - 4000);
+      if (e != g_cnsh->end()) { auto sp = e->second.wp.lock(); if (sp) out.push_back(sp); }
+      continue;
+    }
     if (t >= 2000)
     {
       auto e = g_sgsh->find(t - 2000);
@@ -696,7 +714,7 @@ static void exec_op(const Op& o)
       if (c >= 0)
       {
         if (g_cn->fresh(c)) g_cn->put(c, new sigc::connection(r));
-        else { sigc::connection** cv = g_cn->get(c); if (cv) **cv = r; }
+        else { sigc::connection** cv = live_cn(c); if (cv) **cv = r; }
       }
     }
     else ev("-");
@@ -729,56 +747,77 @@ static void exec_op(const Op& o)
   else if (m == "cempty") { if (g_cn->fresh(A(0))) g_cn->put(A(0), new sigc::connection()); else ev("-"); }
   else if (m == "ccopy")
   {
-    sigc::connection** co = g_cn->get(A(1));
+    sigc::connection** co = live_cn(A(1));
     if (co && g_cn->fresh(A(0))) g_cn->put(A(0), new sigc::connection(**co)); else ev("-");
   }
   else if (m == "casg")
   {
-    sigc::connection** d = g_cn->get(A(0)); sigc::connection** s = g_cn->get(A(1));
+    sigc::connection** d = live_cn(A(0)); sigc::connection** s = live_cn(A(1));
     if (d && s) **d = **s; else ev("-");
   }
   // moving a sigc::connection (it has no move operations of its own: the source stays a valid handle)
   else if (m == "cmove")
   {
-    sigc::connection** co = g_cn->get(A(1));
+    sigc::connection** co = live_cn(A(1));
     if (co && g_cn->fresh(A(0))) g_cn->put(A(0), new sigc::connection(std::move(**co))); else ev("-");
   }
   else if (m == "cmasg")
   {
-    sigc::connection** d = g_cn->get(A(0)); sigc::connection** s = g_cn->get(A(1));
+    sigc::connection** d = live_cn(A(0)); sigc::connection** s = live_cn(A(1));
     if (d && s) **d = std::move(**s); else ev("-");
   }
   else if (m == "knewm")
   {
-    sigc::connection** c = g_cn->get(A(1));
+    sigc::connection** c = live_cn(A(1));
     if (c && g_kn->fresh(A(0))) g_kn->put(A(0), new sigc::scoped_connection(std::move(**c))); else ev("-");
   }
   else if (m == "kasgm")
   {
-    sigc::scoped_connection** k = g_kn->get(A(0)); sigc::connection** c = g_cn->get(A(1));
+    sigc::scoped_connection** k = g_kn->get(A(0)); sigc::connection** c = live_cn(A(1));
     if (k && c) **k = std::move(**c); else ev("-");
   }
-  else if (m == "cdisc") { sigc::connection** c = g_cn->get(A(0)); if (c) (*c)->disconnect(); else ev("-"); }
+  else if (m == "cdisc") { sigc::connection** c = live_cn(A(0)); if (c) (*c)->disconnect(); else ev("-"); }
   else if (m == "cblock")
   {
-    sigc::connection** c = g_cn->get(A(0));
+    sigc::connection** c = live_cn(A(0));
     if (c) ev("br%d", (*c)->block(A(1) != 0) ? 1 : 0); else ev("-");
   }
   else if (m == "cdel")
   {
-    sigc::connection** c = g_cn->get(A(0));
-    if (c) { auto p = *c; g_cn->drop(A(0)); delete p; } else ev("-");
+    sigc::connection** c = live_cn(A(0));
+    if (c && g_cnsh->find(A(0)) == g_cnsh->end()) { auto p = *c; g_cn->drop(A(0)); delete p; } else ev("-");
   }
-  else if (m == "cq") { sigc::connection** c = g_cn->get(A(0)); if (c) conn_query(**c); else ev("-"); }
+  else if (m == "cshare")
+  {
+    sigc::connection** c = live_cn(A(0));
+    if (c && A(0) < 1000 && g_cnsh->find(A(0)) == g_cnsh->end())
+    {
+      SharedConn e; e.sp = std::shared_ptr<sigc::connection>(*c); e.wp = e.sp;
+      (*g_cnsh)[A(0)] = e;
+    }
+    else ev("-");
+  }
+  else if (m == "crel")
+  {
+    sigc::connection** c = live_cn(A(0));
+    auto f = g_cnsh->find(A(0));
+    if (c && f != g_cnsh->end() && !f->second.released)
+    {
+      f->second.released = true;
+      auto sp = std::move(f->second.sp); f->second.sp.reset(); sp.reset();   // may destroy the connection object
+    }
+    else ev("-");
+  }
+  else if (m == "cq") { sigc::connection** c = live_cn(A(0)); if (c) conn_query(**c); else ev("-"); }
   else if (m == "knew")
   {
-    sigc::connection** c = g_cn->get(A(1));
+    sigc::connection** c = live_cn(A(1));
     if (c && g_kn->fresh(A(0))) g_kn->put(A(0), new sigc::scoped_connection(**c)); else ev("-");
   }
   else if (m == "kempty") { if (g_kn->fresh(A(0))) g_kn->put(A(0), new sigc::scoped_connection()); else ev("-"); }
   else if (m == "kasg")
   {
-    sigc::scoped_connection** k = g_kn->get(A(0)); sigc::connection** c = g_cn->get(A(1));
+    sigc::scoped_connection** k = g_kn->get(A(0)); sigc::connection** c = live_cn(A(1));
     if (k && c) **k = **c; else ev("-");
   }
   else if (m == "kmove")
@@ -844,7 +883,7 @@ static const std::map<std::string, int>& arity()
     {"tnew",1},{"tnewsh",1},{"trel",1},{"tdel",1},{"tasg",2},{"tmasg",2},{"tnot",1},
     {"scopy",2},{"smove",2},{"sasg",2},{"smasg",2},{"scall",3},{"sblock",2},{"sdisc",1},{"sdel",1},{"sq",1},
     {"gcopy",2},{"gmove",2},{"gasg",2},{"gmasg",2},{"gdel",1},{"gshare",1},{"grel",1},{"gconn",5},{"gemit",3},{"gclear",1},{"gblock",2},{"gq",1},{"gmk",2},
-    {"cempty",1},{"ccopy",2},{"casg",2},{"cmove",2},{"cmasg",2},{"knewm",2},{"kasgm",2},{"cdisc",1},{"cblock",2},{"cdel",1},{"cq",1},
+    {"cempty",1},{"ccopy",2},{"casg",2},{"cmove",2},{"cmasg",2},{"knewm",2},{"kasgm",2},{"cdisc",1},{"cblock",2},{"cdel",1},{"cshare",1},{"crel",1},{"cq",1},
     {"knew",2},{"kempty",1},{"kasg",2},{"kmove",2},{"kmasg",2},{"kswap",2},{"krel",2},{"kdisc",1},{"kblock",2},{"kdel",1},{"kq",1},
     {"probe",0},{"throw",0}};
   return a;
@@ -1068,8 +1107,8 @@ static std::string run_sig(const std::string& line)
     long in_tables;
     {
       Table<TrVar> tr; Table<SlotVar> sl; Table<GBase*> sg; Table<sigc::connection*> cn; Table<sigc::scoped_connection*> kn;
-      std::map<long, SharedSig> sgsh;
-      g_tr = &tr; g_sl = &sl; g_sg = &sg; g_cn = &cn; g_kn = &kn; g_sgsh = &sgsh;
+      std::map<long, SharedSig> sgsh; std::map<long, SharedConn> cnsh;
+      g_tr = &tr; g_sl = &sl; g_sg = &sg; g_cn = &cn; g_kn = &kn; g_sgsh = &sgsh; g_cnsh = &cnsh;
       for (const auto& o : pr.main)
       {
         try { exec_op(o); }
@@ -1079,7 +1118,12 @@ static std::string run_sig(const std::string& line)
       // normally end every program with an explicit teardown, so this is a no-op)
       bool left = !kn.live.empty() || !cn.live.empty() || !sl.live.empty() || !sg.live.empty() || !tr.live.empty();
       for (auto& kv : kn.live) delete kv.second;
-      for (auto& kv : cn.live) delete kv.second;
+      for (auto& kv : cn.live)
+      {
+        auto f = cnsh.find(kv.first);
+        if (f == cnsh.end()) delete kv.second;
+        else if (f->second.sp) f->second.sp.reset();     // shared: the program's handle, if still held (functor owners are gone below)
+      }
       for (auto& kv : sl.live) { delete kv.second.i; delete kv.second.v; }
       for (auto& kv : sg.live)
       {
